@@ -1,7 +1,8 @@
 /* C08 driver: NSTART accounting of datagram client sessions, observed on the wire + callbacks.
  *
  * Build: vlib.build_driver("h_nstart", ["h_nstart.c"],
- *                          wraps=["coap_ticks", "coap_socket_send", "coap_socket_recv"])
+ *                          wraps=["coap_ticks", "coap_socket_send", "coap_socket_recv",
+ *                                 "coap_netif_dgrm_write"])
  * Case format and result format: see ocaml/d_nstart.ml ("ns ..." lines; the first argument, the
  * model variant, is ignored here: this is the real code).
  *
@@ -22,6 +23,7 @@
  * Observed: datagrams handed to coap_socket_send (type, mid, token), nack handler calls, the
  * return value of coap_send.  session->con_active is never read for the result line (it is
  * printed to stderr with NS_DEBUG=1 for debugging the tie only).
+ *   E  the next socket write fails with ENOBUFS (reported as item E<c|n><mid>.<tok>)
  * "W" mode (natural time): W<ms> advances the virtual clock and lets coap_io_prepare_epoll fire
  * whatever is due.
  */
@@ -57,22 +59,39 @@ static int sid_of(const coap_session_t *s) {
   return -1;
 }
 
+static void show_dgram_item(int sid, char tag, const uint8_t *data, size_t len);
 static void on_send(size_t idx) {
   vn_dgram_t *d = &vn_out[idx];
-  int sid = sid_of(d->session);
-  if (d->len < 4) {
-    item(sid, "Wrunt%zu", d->len);
+  show_dgram_item(sid_of(d->session), 'T', d->data, d->len);
+}
+
+/* "the next socket write fails": own shim one level above coap_socket_send (vnet's vn_send_fail
+ * does not tell which datagram was refused); link with --wrap=coap_netif_dgrm_write */
+static int fail_next_write;
+static void show_dgram_item(int sid, char tag, const uint8_t *data, size_t len) {
+  if (len < 4) {
+    item(sid, "%crunt%zu", tag == 'T' ? 'W' : tag, len);
     return;
   }
-  unsigned ty = (d->data[0] >> 4) & 3, tkl = d->data[0] & 15;
-  unsigned mid = (d->data[2] << 8) | d->data[3];
+  unsigned ty = (data[0] >> 4) & 3, tkl = data[0] & 15;
+  unsigned mid = (data[2] << 8) | data[3];
   unsigned tok = 0;
-  if (tkl <= 8 && 4 + tkl <= d->len)
-    for (unsigned i = 0; i < tkl; i++) tok = (tok << 8) | d->data[4 + i];
+  if (tkl <= 8 && 4 + tkl <= len)
+    for (unsigned i = 0; i < tkl; i++) tok = (tok << 8) | data[4 + i];
   if (ty == 0 || ty == 1)
-    item(sid, "T%c%u.%u", ty == 0 ? 'c' : 'n', mid, tok);
+    item(sid, "%c%c%u.%u", tag, ty == 0 ? 'c' : 'n', mid, tok);
   else
-    item(sid, "W%c%u", ty == 2 ? 'a' : 'r', mid);
+    item(sid, "%c%c%u", tag == 'T' ? 'W' : tag, ty == 2 ? 'a' : 'r', mid);
+}
+ssize_t __real_coap_netif_dgrm_write(coap_session_t *session, const uint8_t *data, size_t datalen);
+ssize_t __wrap_coap_netif_dgrm_write(coap_session_t *session, const uint8_t *data, size_t datalen) {
+  if (fail_next_write) {
+    fail_next_write = 0;
+    show_dgram_item(sid_of(session), 'E', data, datalen);
+    errno = ENOBUFS;
+    return -1;
+  }
+  return __real_coap_netif_dgrm_write(session, data, datalen);
 }
 
 static void on_nack(coap_session_t *s, const coap_pdu_t *sent, const coap_nack_reason_t reason,
@@ -121,6 +140,7 @@ static void do_case(void) {
     if (!natural) coap_set_prng(ns_prng);
   }
   vn_on_send = on_send;
+  fail_next_write = 0;
   recording = 0;
   ctx = coap_new_context(NULL);
   if (!ctx) { puts("ERROR no context"); return; }
@@ -148,7 +168,7 @@ static void do_case(void) {
     items[0] = 0;
     if (op[0] == 'E') {                       /* the next n socket writes fail (ENOBUFS) */
       cur_sid = -1;
-      vn_send_fail = atoi(op + 1);
+      fail_next_write = 1;
     } else if (op[0] == 'W') {                /* natural time: advance, fire what is due */
       cur_sid = -1;
       vn_advance((coap_tick_t)atol(op + 1));
